@@ -117,11 +117,12 @@ class TwoTimeBathCorrelations(BaseAPIClass):
         """
         dt = self._process_tensor.dt
         corr_mat_dim = int(np.round(final_time/dt))
-        current_corr_dim = self._system_correlations.shape[0]
         times_a = slice(corr_mat_dim)
         if self._system_correlations.size == 0:
+            current_corr_dim = 0
             times_b = slice(corr_mat_dim)
         else:
+            current_corr_dim = self._system_correlations.shape[0]
             times_b = slice(current_corr_dim, corr_mat_dim)
         dim_diff = corr_mat_dim - current_corr_dim
         if dim_diff > 0:
@@ -136,13 +137,17 @@ class TwoTimeBathCorrelations(BaseAPIClass):
                                      initial_state = self.initial_state,
                                      progress_type=progress_type)
 
-            self._system_correlations = np.pad(self._system_correlations,
-                                               ((0, dim_diff), (0, 0)),
-                                               'constant',
-                                               constant_values = np.nan)
-            self._system_correlations = np.append(self._system_correlations,
-                                                  _new_sys_correlations,
-                                                  axis = 1)
+            if current_corr_dim == 0:
+                self._system_correlations = _new_sys_correlations
+            else:
+                self._system_correlations = np.pad(self._system_correlations,
+                                                   ((0, dim_diff), (0, 0)),
+                                                   'constant',
+                                                   constant_values = np.nan)
+                self._system_correlations = np.append(
+                    self._system_correlations,
+                    _new_sys_correlations,
+                    axis = 1)
 
     def occupation(
             self,
